@@ -331,7 +331,6 @@ func (w *World) checkLoopNest(m *scoreModel, ln *loopNest, add func(ok bool, rul
 	}
 }
 
-
 // checkSeverityDistance: the body is rank(vecVal) - rank(mxVal) in sevIdx[metric],
 // where rank is the position found by a linear scan.
 func (p *Pkg) checkSeverityDistance(fd *ast.FuncDecl, sevVar *types.Var) (bool, string) {
